@@ -9,9 +9,11 @@ constrains the *inputs* only - the expected values come from TLC.
 """
 HOOKS = ['py_initialize', 'initialize', 'initialize_pair', 'loop_all', 'loop',
          'post_loop', 'reduce']
-BASE = ['x', 'y', 'z', 'h', 'm', 'rho', 'u', 'v', 'w', 'ik']   # ik: int typed
+BASE = ['x', 'y', 'z', 'h', 'm', 'rho', 'u', 'v', 'w', 'ik', 'jk']  # ik, jk: int
 NONNEG_BASE = ['x', 'y', 'z', 'h', 'm', 'rho', 'ik']
-INT_BASE = ['ik']
+INT_BASE = ['ik', 'jk']
+CMP = ['lt', 'le', 'eq', 'ne', 'gt', 'ge']
+CMP_SRC = dict(lt='<', le='<=', eq='==', ne='!=', gt='>', ge='>=')
 TYPES = ['double', 'int', 'long', 'uint', 'float']
 PTYPE = {'double': 'double', 'int': 'int', 'long': 'long',
          'uint': 'unsigned int', 'float': 'float'}
@@ -28,7 +30,7 @@ SYM_BOUND = {'HIJ': 6, 'R2IJ': 147, 'RHOIJ': 6, 'WIJ': 1100, 'WI': 1100,
              'WJ': 1100, 'WDP': 1100, 'WDASHI': 170, 'WDASHJ': 170,
              'WDASHIJ': 170, 'GHI': 920, 'GHJ': 920, 'GHIJ': 920, 'XIJ': 9,
              'VIJ': 6, 'DWIJ': 210, 'DWI': 210, 'DWJ': 210, 'RIJ': 9}
-BASE_BOUND = {'ik': 9, 'x': 9, 'y': 5, 'z': 4, 'h': 6, 'm': 4, 'rho': 6, 'u': 3,
+BASE_BOUND = {'ik': 9, 'jk': 9, 'x': 9, 'y': 5, 'z': 4, 'h': 6, 'm': 4, 'rho': 6, 'u': 3,
               'v': 3, 'w': 3}
 
 
@@ -68,7 +70,21 @@ class Bounds(object):
         if k == 'rij':
             return 9
         if k == 'at':
-            return 5
+            return 9
+        if k == 'il':
+            return abs(a['i'])
+        if k == 'pow':
+            return max(1, self.atom(a['a'][0])) ** self.atom(a['a'][1])
+        if k == 'mod':
+            return self.atom(a['a'][1])
+        if k in ('fdiv', 'abs'):
+            return self.atom(a['a'][0]) + 1
+        if k in ('max', 'min', 'and', 'or'):
+            return max(self.atom(a['a'][0]), self.atom(a['a'][1]))
+        if k in ('cmp', 'not', 'ovf'):
+            return 1
+        if k == 'uneg':
+            return 1023
         if k == 'atv':
             return 9
         if k == 't':
@@ -135,8 +151,109 @@ class Gen(object):
             return A(kind, n, rng.randrange(self.slots[n][1]))
         return A(kind, rng.choice(NONNEG_BASE if nonneg else BASE), 0)
 
+    # -- arithmetic operators (operands are leaves) ---------------------------
+    def int_leaf(self, nonzero=False):
+        rng = self.rng
+        k = rng.choice(['il', 'il', 'ci', 'cj', 'ni', 'nj'] +
+                       ([] if nonzero else ['ik', 'jk', 'jk']))
+        if k == 'il':
+            return A('il', '', rng.choice([-5, -4, -3, -2, 2, 3, 4, 5] if nonzero
+                                          else [-7, -3, -1, 0, 1, 2, 5, 7]))
+        if k in ('ik', 'jk'):
+            return A('dp', k)
+        return A('at', k)
+
+    def flt_leaf(self, nonzero=False):
+        rng = self.rng
+        k = rng.choice(['c', 'ca', 'h'] + ([] if nonzero else
+                                           ['x', 'u', 'u', 'm']))
+        if k == 'c':
+            return A('c', '', rng.choice([-4, -3, -2, 2, 3, 4]))
+        if k == 'ca':
+            return A('at', 'ca')
+        return A('dp', k)
+
+    def leaf(self):
+        return self.int_leaf() if self.rng.random() < 0.5 else self.flt_leaf()
+
+    def op_atom(self, readable):
+        """An operator whose C translation can differ from Python's meaning.
+        Modules with self.idiv also get the constructs for which the
+        unchanged generator is known to differ (%, int //, long overflow)."""
+        rng = self.rng
+        ops = ['pow', 'pow', 'pow', 'fdivf', 'abs', 'max', 'min', 'cmp',
+               'cmp', 'and', 'or', 'not', 'uneg']
+        if self.idiv:
+            ops += ['mod', 'mod', 'mod', 'fdivi', 'fdivi', 'ovf']
+        k = rng.choice(ops)
+        self.feat('op:' + k)
+        if k == 'pow':
+            form = rng.choice(['int-int', 'int-int', 'flt-int', 'neg-int',
+                               'lit-prop'])
+            if form == 'lit-prop':        # 2 ** d_ik[d_idx]
+                b = rng.choice([A('il', '', rng.choice([-3, -2, 2, 3])),
+                                A('c', '', rng.choice([-2, 2]))])
+                e = A('dp', 'ik')
+            else:
+                e = A('at', rng.choice(['ci', 'cj']))
+                if form == 'int-int':
+                    b = rng.choice([A('il', '', rng.choice([2, 3, 5, 7])),
+                                    A('at', 'ci'), A('at', 'cj'),
+                                    A('dp', 'ik')])
+                elif form == 'flt-int':
+                    b = rng.choice([A('dp', 'x'), A('at', 'ca'),
+                                    A('c', '', 2), A('dp', 'h')])
+                else:
+                    b = rng.choice([A('il', '', rng.choice([-2, -3])),
+                                    A('c', '', rng.choice([-2, -3])),
+                                    A('dp', 'u'), A('at', 'ni'),
+                                    A('dp', 'jk')])
+            self.feat('pow:' + form)
+            return A('pow', '', 0, [b, e])
+        if k == 'fdivf':                  # float dividend: floor in C as well
+            return A('fdiv', '', 0, [rng.choice(
+                [A('dp', 'x'), A('dp', 'u'), A('dp', 'u'), A('at', 'ca')]),
+                self.int_leaf(True) if rng.random() < 0.5
+                else self.flt_leaf(True)])
+        if k == 'fdivi':                  # both operands integer typed
+            u = self.int_leaf()
+            v = self.int_leaf(True)
+            if u['k'] == 'il' and v['k'] == 'il':
+                v = A('at', rng.choice(['ci', 'nj']))
+            return A('fdiv', '', 0, [u, v])
+        if k == 'mod':
+            u = self.leaf()
+            v = self.int_leaf(True) if rng.random() < 0.6 \
+                else self.flt_leaf(True)
+            if u['k'] in ('il', 'c') and v['k'] in ('il', 'c'):
+                v = A('at', rng.choice(['cj', 'ni', 'nj']))
+            return A('mod', '', 0, [u, v])
+        if k == 'abs':
+            return A('abs', '', 0, [rng.choice([A('dp', 'u'), A('dp', 'jk'),
+                                                A('at', 'nj')])])
+        if k in ('max', 'min'):
+            return A(k, '', 0, [self.int_leaf(), self.flt_leaf()]
+                     if rng.random() < 0.7 else [self.leaf(), self.leaf()])
+        if k == 'cmp':
+            return A('cmp', rng.choice(CMP), 0, [self.leaf(), self.leaf()])
+        if k in ('and', 'or'):
+            return A(k, '', 0, [self.leaf(), self.leaf()])
+        if k == 'not':
+            return A('not', '', 0, [rng.choice([A('dp', 'u'), A('dp', 'jk'),
+                                                A('dp', 'ik')])])
+        if k == 'uneg':
+            pool = [n for n in readable if self.slots[n][0] == 'uint']
+            if not pool:
+                return A('abs', '', 0, [A('dp', 'u')])
+            n = rng.choice(pool)
+            return A('uneg', '', 0, [A('dp', n, rng.randrange(
+                self.slots[n][1]))])
+        return A('ovf')
+
     def atom(self, hook, readable, nonneg, lets, depth=0):
         rng = self.rng
+        if depth == 0 and not nonneg and rng.random() < 0.16:
+            return self.op_atom(readable)
         menu = ['dp', 'dp', 'at', 'atv', 't', 'dt', 'dc']
         if lets:
             menu += ['mat', 'hvm']
@@ -326,6 +443,18 @@ class Gen(object):
                 f.append(rng.choice([A('sp', 'm'), A('dp', 'm'), A('sym', 'HIJ'),
                                      A('sym', 'RHOIJ'), A('sp', 'h')]))
             e.append(dict(c=rng.randint(1, 3), f=f))
+        if rng.random() < 0.6 or not self.feats.get('pow:int-negint'):
+            # integer / float base to a negative, non-literal integer power
+            b = rng.choice([A('il', '', 2), A('il', '', -2), A('il', '', 5),
+                            A('c', '', 2), A('c', '', -2)])
+            if not self.feats.get('pow:int-negint'):
+                b = A('il', '', rng.choice([2, -2, 5]))
+            self.feat('pow:int-negint' if b['k'] == 'il' else 'pow:flt-negint')
+            f = [A('powq', '', 0, [b, A('at', 'ni')])]
+            if rng.random() < 0.5:
+                f.append(rng.choice([A('sp', 'm'), A('dp', 'm')]))
+            e.append(dict(c=rng.randint(1, 3), f=f))
+            self.feat('op:pow-negative')
         if self.idiv and rng.random() < 0.8:
             # `/` between two integer-typed operands: integer literal,
             # integer-valued instance attribute, int-typed property
@@ -428,6 +557,9 @@ class Gen(object):
                 body[str(eid)] = dict(
                     attrs=dict(ca=rng.randint(1, 5), ci=rng.randint(1, 5),
                                cj=rng.randint(1, 5),
+                               ni=rng.choice([-1, -2]),
+                               nj=rng.randint(-9, -3),
+                               be=rng.choice([20, 31, 32, 40]),
                                cv=[rng.randint(1, 9), rng.randint(1, 9)]),
                     **dict((h, []) for h in HOOKS))
             g['eqs'] = eqs
@@ -463,6 +595,12 @@ class Gen(object):
                                 else:
                                     self.replay(hh, e, b[hh], bd)
             prog.append(g)
+        # every module raises an integer to a negative non-literal power
+        for g in prog:
+            for e in g['eqs']:
+                if 'loop' in e['hooks'] and \
+                        not self.feats.get('pow:int-negint'):
+                    body[str(e['eid'])]['loop'].append(self.rat_stmt())
         inside = all(bd.B[n] <= LIM[self.slots[n][0]] for n in self.slots) \
             and bd.C['cacc'] <= (1 << 30) and bd.C['cin'] <= 64
         spec.update(prog=prog, body=body, feats=self.feats,
@@ -560,6 +698,7 @@ def gen_data(rng, spec, dim, rid):
         for n in 'uvw':
             p[n] = [rng.randint(-3, 3) for i in range(nall)]
         p['ik'] = [rng.randint(0, 9) for i in range(nall)]
+        p['jk'] = [rng.randint(-9, 9) for i in range(nall)]
         for n, (ty, st) in spec['slots'].items():
             p[n] = [rng.randint(0, 3) for i in range(nall * st)]
         for n, st in spec['rats'].items():
@@ -593,7 +732,8 @@ def static_part(spec):
         types[n] = 'double'
     return dict(prog=spec['prog'], body=spec['body'], stride=stride,
                 types=types, rat=sorted(spec['rats']),
-                idiv=bool(spec.get('idiv')))
+                idiv=bool(spec.get('idiv')),
+                cops=['div', 'floor', 'ovf'] if spec.get('idiv') else [])
 
 
 # ---------------------------------------------------------------------------
@@ -642,7 +782,31 @@ class Render(object):
         if k == 'c':
             return self.lit(a['i'])
         if k == 'il':
-            return '%d' % a['i']
+            return '%d' % a['i'] if a['i'] >= 0 else '(%d)' % a['i']
+        if k in ('pow', 'powq'):
+            return '(%s**%s)' % (self.atom(a['a'][0], use),
+                                 self.atom(a['a'][1], use))
+        if k == 'mod':
+            return '(%s %% %s)' % (self.atom(a['a'][0], use),
+                                   self.atom(a['a'][1], use))
+        if k == 'fdiv':
+            return '(%s // %s)' % (self.atom(a['a'][0], use),
+                                   self.atom(a['a'][1], use))
+        if k in ('abs', 'max', 'min'):
+            return '%s(%s)' % (k, ', '.join(self.atom(v, use)
+                                            for v in a['a']))
+        if k == 'cmp':
+            return '(%s %s %s)' % (self.atom(a['a'][0], use), CMP_SRC[a['n']],
+                                   self.atom(a['a'][1], use))
+        if k in ('and', 'or'):
+            return '(%s %s %s)' % (self.atom(a['a'][0], use), k,
+                                   self.atom(a['a'][1], use))
+        if k == 'not':
+            return '(not %s)' % self.atom(a['a'][0], use)
+        if k == 'uneg':
+            return '((-%s) %% 1024)' % self.atom(a['a'][0], use)
+        if k == 'ovf':
+            return '(((self.bi*self.bi)/self.bi)/self.bi)'
         if k == 'idiv':
             return '(%s/%s)' % (self.atom(a['a'][0], use),
                                 self.atom(a['a'][1], use))
@@ -773,10 +937,13 @@ class Render(object):
                 b = self.spec['body'][str(e['eid'])]
                 src += ['class Pq%d(Equation):' % e['eid'],
                         '    def __init__(self, dest, sources, ca=1.0, ci=1, '
-                        'cj=1, cv=None):',
+                        'cj=1, ni=-1, nj=-3, bi=1, cv=None):',
                         '        self.ca = ca',
                         '        self.ci = ci',
                         '        self.cj = cj',
+                        '        self.ni = ni',
+                        '        self.nj = nj',
+                        '        self.bi = bi',
                         '        self.cv = numpy.asarray(cv, dtype=float)',
                         '        super(Pq%d, self).__init__(dest, sources)'
                         % e['eid'], '',
